@@ -182,6 +182,7 @@ def floors(tier):
             "real_path_cases": 1200,
             "matched_own": 800,
             "isa_entries_real_path": 60,
+            "isa_entries_through_cli": 50,
             "cli_runs": 50,
             "dbcheck_runs": 17,
             "dbcheck_counts_compared": 17 * 4,
@@ -202,6 +203,7 @@ def floors(tier):
         "real_path_cases": 7500,
         "matched_own": 5000,
         "isa_entries_real_path": 380,
+        "isa_entries_through_cli": 300,
         "cli_runs": 3000,
         "dbcheck_runs": 17,
         "dbcheck_subprocess_runs": 17,
@@ -244,7 +246,7 @@ def plan(tier, seed):
         specs.append({"kind": "multi", "order": o, "every": 4 if tier == "thorough" else 12, "rot": seed})
     for isa_file in ("isa/x86", "isa/aarch64"):
         if isa_file in files:
-            specs.append({"kind": "isa", "file": isa_file, "every": 1 if tier == "thorough" else 3, "rot": seed % 3})
+            specs.append({"kind": "isa", "file": isa_file, "every": 1, "rot": 0})
     if tier == "thorough":
         for a in sorted(archs, key=lambda x: -sizes[x]):
             every = 6 if a in BIG else (2 if a in MID else 1)
@@ -757,6 +759,10 @@ def run_isa(spec, R):
     real = Real(SMALL_X86 if isa == "x86" else SMALL_A64)
     im = MachineModel(arch=file)
     R.observe("archs_costed", file)
+    import osaca.osaca as oo
+
+    cli_parser = oo.create_parser()
+    tmpd = tempfile.mkdtemp(prefix="c15isa-")
     i = -1
     for name, forms in im["instruction_forms_dict"].items():
         for k, fo in enumerate(forms):
@@ -766,6 +772,10 @@ def run_isa(spec, R):
             line = er.render(isa, fo)
             case = {"kind": "isa-line", "file": file, "name": name, "k": k}
             how = analyse_line(real, line, R, case, own=None, klass="isa_entries_real_path")
+            if how != "unparsed" and not impossible_addressing(isa, fo):
+                # the whole analysis (dependency graph included: register-change operations of the entry are executed there)
+                R.count("isa_entries_through_cli")
+                cli_one(real, oo, cli_parser, tmpd, line, {"kind": "isa-cli", "file": file, "arch": real.arch, "name": name, "k": k}, None, R)
             R.case(digest([file, name, k, "line"]), nontrivial=bool(fo.operands))
             if how != "unparsed":
                 # did the ISA lookup resolve to this entry?
@@ -775,6 +785,7 @@ def run_isa(spec, R):
                     R.count("isa_matched_own" if got is fo else ("isa_matched_none" if got is None else "isa_matched_other"))
                 except Exception:  # noqa
                     pass
+    subprocess.run(["rm", "-rf", tmpd])
 
 
 def run_cli(spec, R):
@@ -937,7 +948,7 @@ def replay(case, R):
                 cli_one(real, oo, oo.create_parser(), d, case.get("line") or er.render(real.isa, fo), {k: v for k, v in case.items() if k not in ("traceback", "line")}, fo, R)
         else:
             run_composed(real, [(case["name"], case["k"], fo)], R)
-    elif kind == "isa-line":
+    elif kind in ("isa-line", "isa-cli"):
         run_isa({"file": case["file"], "every": 1, "rot": 0}, R)
     else:
         raise ValueError("unknown case kind %r" % kind)
